@@ -8,12 +8,16 @@ CLAIMS["C08"] = dict(
          "<= 3 records mixing the attribute-less overloads with empty-container / filtered-to-empty / kept attribute sets over two cycles on SyncMetricStorage and on Meter counters and "
          "histograms with delta and cumulative collectors (one series per filtered set carrying the exact total); each with no filter and every allow-list, keys stored "
          "NUL-terminated / as a slice of a longer buffer / in an exact-size heap block (ASan), caller buffers overwritten after the call; on the real FilteredOrderedAttributeMap, "
-         "its hash, FilteringAttributesProcessor (constructor path, process(), isPresent), AttributesHashMap, SyncMetricStorage and MeterProvider + View: equal-as-maps <=> same "
+         "its hash, FilteringAttributesProcessor (constructor path, process(), isPresent), AttributesHashMap, SyncMetricStorage and MeterProvider + View (delta and cumulative reader): equal-as-maps <=> same "
          "series (three-valued: int32/int64/uint of the same number, +0.0/-0.0, integral double vs integer, empty arrays of different element types are don't-care), equal => equal hash, "
          "the filter removes exactly the disallowed keys, stored values are owned copies of the right type. "
          "(b) c08_cardinality: real SyncMetricStorage with limit 1..4, every history of depth 8 (quick) / 9 (thorough) over Record(one of limit+2 sets, unique bit per record; set names "
-         "up to symmetry) and Collect(collector) for {delta}, {cumulative}, {delta,cumulative} collectors, plus MeterProvider configurations at the default limit 2000 (1999 / 2001 sets, "
+         "up to symmetry) and Collect(collector) for {delta}, {cumulative}, {delta,cumulative} collectors; every history of depth 7 (quick) / 8 (thorough) whose alphabet also has Record without "
+         "attributes (RecordLong(value, ctx): the empty set through the attribute-less overload); with the delta collector also under FilteringAttributesProcessor{k} with records "
+         "{k=i, noise=unique}; AttributesHashMap(L), L = 1..3, directly: every sequence of depth 4 (quick) / 5 (thorough) over (one of L+1 sets or the empty set) x (the three GetOrSetDefault "
+         "and three Set overloads) - after every call size <= L, a set that has an entry gets that entry, an absent set is inserted or (only once L distinct sets occurred) addressed to the "
+         "overflow entry, no other entry changes; plus MeterProvider configurations at the default limit 2000 (1999 / 2001 sets, "
          "2x1100, 2x2001, 3x1100 over several cycles, two readers with two pending interval tables); after every collection: #series <= limit, every series is a recorded set or "
-         "otel.metrics.overflow=true, a regular series holds only measurements of its own set, the series add up to everything recorded in scope, no overflow series while fewer than "
+         "otel.metrics.overflow=true, a regular series holds only measurements of its own set - and all of them whenever the measurements in scope were recorded into one interval table (exact partition) -, the series add up to everything recorded in scope, no overflow series while fewer than "
          "limit distinct sets occurred.",
     note=SEQ_NOTE)
